@@ -6,7 +6,7 @@ set -u
 pid=$1; patch=$(realpath "$2"); tier=${3:-quick}
 wt=$(mktemp -d /tmp/seedwt-XXXXXX); rmdir "$wt"
 git -C /repo worktree add -q "$wt" HEAD || exit 2
-if ! git -C "$wt" apply "$patch"; then echo "PATCH-DOES-NOT-APPLY"; git -C /repo worktree remove --force "$wt"; exit 3; fi
+if ! git -C "$wt" apply "$patch" 2>/dev/null && ! git -C "$wt" apply -3 "$patch"; then echo "PATCH-DOES-NOT-APPLY"; git -C /repo worktree remove --force "$wt"; exit 3; fi
 (cd /verif && VERIF_REPO="$wt" ./check "$pid" --tier "$tier" 2>&1 | grep -E "VIOLATION|KNOWN-FINDING|\[check\] (C|no longer|infra)" | cut -c1-400)
 rc=${PIPESTATUS[0]}
 git -C /repo worktree remove --force "$wt"
